@@ -70,7 +70,7 @@ def run(tier):
         allc.append(big_program(rng, n))
     # long structured programs (scopes that close, names declared twice in a scope, kept function names, globals named like locals)
     for k in range(1500 if tier == "quick" else 20000):
-        allc.append(renamer_gen.program(rng, nstmts=rng.randint(12, 60), names=rng.choice([("a", "b", "x"), ("a", "b"), ("a", "b", "x", "f", "c")])))
+        allc.append(renamer_gen.program(rng, nstmts=rng.randint(12, 60), names=rng.choice([("a", "b", "x"), ("a", "b"), ("a", "b", "x", "f", "c"), ("a", "self", "b"), ("self", "x")])))
     for k, c in enumerate(allc):
         c["id"] = "p%d" % k
         c["listed"] = ["u"]
